@@ -1,4 +1,4 @@
-(* Kernel ties of family M (min_max.go, query.go): see Proofs/KernelEquiv.v. *)
+(* Tactics for the kernel ties of family M (min_max.go, query.go): see Proofs/KernelEquiv.v. *)
 From BS Require Import Lib.Bytes Lib.Wrap64 Lib.GoPrim Generated.Kernels Generated.KernelTie Model.MinMax Proofs.KernelEquiv.
 From Coq Require Import ZArith List Bool Lia.
 Import ListNotations.
@@ -10,23 +10,6 @@ Ltac k_open_M :=
   intros; autounfold with go_kernels go_ties in *;
   unfold clamp_u, update_mm, eval_minmax, eval_numeric, eval_string, MaxInt64, MinInt64 in *;
   k_destruct_tuples; k_beta; k_proj_M.
-
-Lemma k_clamp_u_tie : tie_clamp_u.
-Proof. unfold tie_clamp_u. first [exact I | k_open_M; k_arith]. Qed.
-
-Lemma k_update_mm_tie : tie_update_mm.
-Proof. unfold tie_update_mm. first [exact I | k_open_M; k_arith]. Qed.
-
-Lemma k_eval_minmax_tie : tie_eval_minmax.
-Proof.
-  unfold tie_eval_minmax. first [exact I | k_open_M; k_auto k_proj_M].
-Qed.
-
-Lemma k_eval_numeric_tie : tie_eval_numeric.
-Proof.
-  unfold tie_eval_numeric. first [exact I | k_open_M; k_auto k_proj_M].
-Qed.
-
 
 (* ---- strings: the generated definitions compare byte lists over Z, the model over N ---- *)
 Lemma gstr_cmp_model a : forall b, gstr_ok a -> gstr_ok b ->
@@ -72,8 +55,3 @@ Ltac k_str_split :=
          end.
 
 Ltac k_str := k_proj_M; k_str_norm; k_str_split.
-
-Lemma k_eval_string_tie : tie_eval_string.
-Proof.
-  unfold tie_eval_string. first [exact I | k_open_M; k_hyps; k_str; k_auto k_str].
-Qed.
